@@ -1,0 +1,60 @@
+"""Verification instrumentation (add-only; inert unless the environment variable FDTDX_VERIF=1).
+
+When enabled, the time-stepping entry points emit one event per executed step through an ordered
+``jax.debug.callback`` (works inside ``while_loop``, ``custom_vjp`` and ``jax.vjp``). Events are
+appended to the in-process list ``EVENTS`` and, if ``FDTDX_VERIF_TRACE`` names a file, also written
+there as ndjson. The guard is evaluated when the step function is traced, so with the guard off the
+traced computation is unchanged.
+"""
+
+import json
+import os
+
+EVENTS: list[dict] = []
+
+
+def enabled() -> bool:
+    return os.environ.get("FDTDX_VERIF") == "1"
+
+
+def _fingerprint(x):
+    # fixed pseudo-random linear functional of an array (cheap scalar summary of a field state)
+    import jax.numpy as jnp
+
+    flat = jnp.ravel(x)
+    w = jnp.sin(jnp.arange(flat.shape[0], dtype=jnp.float32) * 0.7391 + 0.3)
+    if jnp.iscomplexobj(flat):
+        return jnp.sum(jnp.real(flat) * w) + 0.5 * jnp.sum(jnp.imag(flat) * w)
+    return jnp.sum(flat * w)
+
+
+def _record(ev: dict):
+    EVENTS.append(ev)
+    path = os.environ.get("FDTDX_VERIF_TRACE")
+    if path:
+        with open(path, "a") as f:
+            f.write(json.dumps(ev) + "\n")
+
+
+def emit_step(kind: str, time_step, E, H, **flags):
+    """Emit one step event (kind, time step, fingerprints of E and H, static flags)."""
+    if not enabled():
+        return
+    import jax
+
+    def _cb(t, fe, fh):
+        _record({"ev": kind, "t": int(t), "fpE": float(fe), "fpH": float(fh), **flags})
+
+    jax.debug.callback(_cb, time_step, _fingerprint(E), _fingerprint(H), ordered=True)
+
+
+def emit_checkpoint_select(time_step, checkpoint_time: int, taken):
+    """Emit the outcome of one checkpoint-restore decision of the reversible backward pass."""
+    if not enabled():
+        return
+    import jax
+
+    def _cb(t, tk):
+        _record({"ev": "ckpt", "t": int(t), "s": int(checkpoint_time), "taken": bool(tk)})
+
+    jax.debug.callback(_cb, time_step, taken, ordered=True)
